@@ -64,7 +64,7 @@ func C07(tier string) int {
 	ops := crash07.Ops
 	if tier != "thorough" {
 		// quick: one operation per mechanism (store + db, multi-mailbox, removal, namespace, connector batch / replace)
-		ops = []string{"APPEND", "MOVE", "EXPUNGE", "RENAME", "CONN-CREATE2", "CONN-UPDATE", "LOGOUT-PURGE"}
+		ops = []string{"APPEND", "MOVE", "EXPUNGE", "RENAME", "CONN-CREATE-KNOWN", "CONN-UPDATE", "LOGOUT-PURGE"}
 	}
 	seq := 0
 	newDir := func() string { seq++; return c07Dir(seq) }
@@ -236,7 +236,7 @@ func C07(tier string) int {
 	c.Coverage["step_kinds"] = stepNames
 	c.Assumptions = []string{
 		"process death and failing steps are enumerated; power loss (dropped unsynced pages) is not — SQLite's commit is the atomicity mechanism under test",
-		"the remote side still has every message after the restart (a lost cache file may be re-fetched from it)",
+		"after the restart the remote side does not offer message literals, so a cache file that went missing can not be healed silently by a re-download",
 		"a fixed pre-state: 2 mailboxes, 4 messages incl. one of 400 KiB that spans cache-file blocks",
 	}
 	if engineErr != "" {
